@@ -52,6 +52,27 @@ def _keep_dominant_directions(A: np.ndarray, n: int) -> np.ndarray:
     return cast(np.ndarray, U[:, :n] * S[:n])
 
 
+def _to_array_of_arrays(matrices: Sequence[np.ndarray]) -> np.ndarray:
+    """
+    Get a 1D numpy array (of numpy arrays) with the given matrices, even
+    if all of them have the same shape.
+
+    Parameters
+    ----------
+    matrices : Sequence[np.ndarray]
+        The matrices (one for each user).
+
+    Returns
+    -------
+    np.ndarray
+        A 1D numpy array whose elements are the matrices.
+    """
+    out = np.empty(len(matrices), dtype=np.ndarray)
+    for k, matrix in enumerate(matrices):
+        out[k] = matrix
+    return out
+
+
 __all__ = [
     'AlternatingMinIASolver', 'MaxSinrIASolver', 'MinLeakageIASolver',
     'ClosedFormIASolver', 'MMSEIASolver', 'GreedStreamIASolver',
@@ -2028,14 +2049,19 @@ class GreedStreamIASolver:
             # reduction.
             if old_sum_capacity > new_sum_capacity:
                 # Lets restore the previous solution. First we clear the
-                # current solution.
+                # current solution (which also clears the power).
+                old_P = self._iasolver.P
                 self._iasolver.clear()
 
-                # Now we set the precoders
-                self._iasolver.set_precoders(F=self._old_F,
-                                             full_F=self._old_full_F,
-                                             P=P)
-                self._iasolver.set_receive_filters(W_H=self._old_W_H)
+                # Now we set the precoders. Note that the solver works
+                # with (1D) numpy arrays of numpy arrays and with one
+                # power value for each user.
+                self._iasolver.set_precoders(
+                    F=_to_array_of_arrays(self._old_F),
+                    full_F=_to_array_of_arrays(self._old_full_F),
+                    P=old_P)
+                self._iasolver.set_receive_filters(
+                    W_H=_to_array_of_arrays(self._old_W_H))
 
                 keep_going = False
             # xxxxxxxxxxxxxxxxxxxxxxxxxxxxxxxxxxxxxxxxxxxxxxxxxxxxxxxxxxxxx
